@@ -57,6 +57,9 @@ Proof. induction t; cbn [norm]; try reflexivity; assumption. Qed.
 Section Routing.
 Variable E : env.
 Variable dir : bool.
+(* leaf types whose positions pass through (Any): a field of such a type gets no graph node and the
+   structured routine falls back to the no-op routine, which is that leaf's own routine *)
+Variable noop_leaf : nat -> bool.
 
 (* r routes (normal) annotation a *)
 Inductive routes' : routine -> ty -> Prop :=
@@ -72,7 +75,8 @@ Inductive routes' : routine -> ty -> Prop :=
     E c = Some (NClass cd) ->
     Forall2 (fun fr fd => fst fr = fname fd /\ routes' (snd fr) (norm (fty fd))) frs (cfields cd) ->
     routes' (RStruct c frs) (TName c)
-| Ro_delayed t a : norm t = a -> routes' (RDelayed t) a.
+| Ro_delayed t a : norm t = a -> routes' (RDelayed t) a
+| Ro_noop s : noop_leaf s = true -> routes' RNoOp (TLeaf s).
 
 Definition routes (r : routine) (a : ty) : Prop := routes' r (norm a).
 
@@ -121,6 +125,7 @@ Proof. revert rs. induction l as [|a l IH]; intros rs HP H; cbn [mapM] in H.
 (* ---------------------------------------------------------------- the contract of the node order *)
 (* every lookup a constructor performs for the members of u finds an entry *)
 Definition found (cx : ctx) (k : ty) : bool := match getitem cx k with Ok _ => true | _ => false end.
+Definition is_noop (a : ty) : bool := match a with TLeaf s => noop_leaf s | _ => false end.
 Definition members_found (cx : ctx) (u : ty) : bool :=
   match u with
   | TSeq _ a => found cx (evaluate a)
@@ -128,7 +133,8 @@ Definition members_found (cx : ctx) (u : ty) : bool :=
   | TTuple ts => forallb (fun t => found cx (evaluate t)) ts
   | TUnion ts => forallb (found cx) (members_u dir ts)
   | TName c => match E c with
-               | Some (NClass cd) => forallb (fun fd => found cx (fty fd) || found cx (evaluate (fty fd))) (cfields cd)
+               | Some (NClass cd) =>
+                   forallb (fun fd => found cx (fty fd) || found cx (evaluate (fty fd)) || is_noop (norm (fty fd))) (cfields cd)
                | _ => false end
   | TLeaf _ | TNone | TRef _ | TRefLeaf _ | TRefTo _ | TAliasStr _ _ => true
   | _ => false
@@ -201,13 +207,16 @@ Proof.
     revert Hall. generalize (cfields cd) at 1 3 4. intros l Hall.
     induction l as [|fd l IH]; cbn [map]; constructor.
     + cbn [fst snd]. split; [reflexivity|].
-      specialize (Hmf fd (Hall fd (or_introl eq_refl))). apply orb_true_iff in Hmf.
+      specialize (Hmf fd (Hall fd (or_introl eq_refl))).
       destruct (ctx_get cx (fty fd)) as [r0|] eqn:E1.
       * exact (ctx_get_routes _ _ _ Hok E1).
-      * destruct Hmf as [Hf|Hf]; apply found_get in Hf; destruct Hf as [r1 Hr1].
-        -- rewrite E1 in Hr1. discriminate Hr1.
-        -- rewrite Hr1. pose proof (ctx_get_routes _ _ _ Hok Hr1) as Hr. unfold routes in Hr.
+      * destruct (ctx_get cx (evaluate (fty fd))) as [r1|] eqn:E2.
+        -- pose proof (ctx_get_routes _ _ _ Hok E2) as Hr. unfold routes in Hr.
            rewrite norm_evaluate in Hr. exact Hr.
+        -- apply orb_true_iff in Hmf. destruct Hmf as [Hmf|Hno].
+           ++ apply orb_true_iff in Hmf.
+              destruct Hmf as [Hf|Hf]; apply found_get in Hf; destruct Hf as [r2 Hr2]; congruence.
+           ++ unfold is_noop in Hno. destruct (norm (fty fd)); try discriminate Hno. constructor. exact Hno.
     + apply IH. intros fd' Hfd'. apply Hall. right. exact Hfd'.
   - (* TRef *) injection H as <-. constructor. reflexivity.
   - (* TRefLeaf *) injection H as <-. constructor. reflexivity.
